@@ -20,7 +20,7 @@ RULE = ("annotated generated assemblies over every supported geometry (as C08) w
         "one enzyme whose products (embedding the next level's sites by construction) are re-used as modules of a level-1 assembly over "
         "another enzyme. Non-trivial = product returned, provenance features tiled and the GenBank round trip compared; distinct = distinct input sets.")
 ASSUMPTIONS = ["ids are GenBank-legal (<= 16 characters of [A-Za-z0-9_]); names are 1..28 such characters (current GenBank/Biopython accept long LOCUS names)", "the GenBank format cannot express 'unstranded': None is compared as +1"]
-FLOORS = {"c09_with_unused_module": 50, "c09_judged": 400, "c09_genbank_roundtrips": 400, "c09_fragment_counts_checked": 300, "c09_inner_provenance_checked": 50, "c09_registry_products": 8}
+FLOORS = {"c09_renamed_after_wrapping": 50, "c09_with_unused_module": 50, "c09_judged": 400, "c09_genbank_roundtrips": 400, "c09_fragment_counts_checked": 300, "c09_inner_provenance_checked": 50, "c09_registry_products": 8}
 MUST_REACH = ["add_as_source", "AssemblyManager._annotate_assembly"]
 NEEDS_REGISTRIES = True
 BUDGET_S = {"quick": 900, "thorough": 7200}
@@ -163,6 +163,10 @@ def execute(mat, ctx):
         res = _embedded.run_assembly(mat, ctx, records=shared)
         _mon.tag = {"call": 2}
         _embedded.run_assembly(mat, ctx, records=shared)
+        if mat["id"][:1] in "ABCDEFGHIJKLM":
+            _mon.tag = {"call": "renamed-after-wrapping"}
+            _embedded.run_assembly(mat, ctx, rename_after_wrap=True)
+            ctx.count("c09_renamed_after_wrapping")
         if mat.get("has_unused"):
             ctx.count("c09_with_unused_module")
         sig = [mat["enzyme"], mat["vector"]["seq"], [m["seq"] for m in mat["modules"]], mat["id"]]
